@@ -96,6 +96,13 @@ func bucketKeyOf(v ssa.Value, depth int) *ssa.Global {
 	case *ssa.TypeAssert:
 		return bucketKeyOf(x.X, depth+1)
 	case *ssa.UnOp:
+		// a field of a small struct the function builds itself (the two
+		// buckets travelling together): what was stored there
+		if _, isFA := x.X.(*ssa.FieldAddr); isFA && x.Op == token.MUL && x.Block() != nil {
+			if w := ir.ValueAt(x, x.Block()); w != ssa.Value(x) {
+				return bucketKeyOf(w, depth+1)
+			}
+		}
 		if al, ok := x.X.(*ssa.Alloc); ok && x.Op == token.MUL {
 			var g *ssa.Global
 			for _, st := range ir.StoresTo(al) {
